@@ -279,4 +279,19 @@ def rule_shared_names(ctx):
     ctx.borrow(rule_enc, {"C06.ENC": "C08.REPLY"})
 
 
-RULES = [rule_quote, rule_carry, rule_send, rule_sep, rule_shared_names]
+def rule_listed_dir(ctx):
+    from .c18 import rule_listed
+    from .c06 import rule_support
+    ctx.rule("C08.LISTED", "a directory is listed under exactly its name: the filesystem listers do not read the name as a glob pattern (shared with C18.FS)")
+    rule_listed(ctx, "C08.LISTED")
+    ctx.borrow(rule_support, {"C06.SUPPORT": "C08.REPLY"}, only=lambda fn: "wrap_with_container" in fn)
+
+
+def rule_prefix_names(ctx):
+    from .c04 import rule_near
+    ctx.rule("C08.PREFIX", "a name that merely starts with another name is a different object for every layer: the permission table matches whole path components "
+                           "(`/pub lic` is not inside `/pub`; shared with C04.NEAR)")
+    ctx.borrow(rule_near, {"C04.NEAR": "C08.PREFIX"}, only=lambda fn: "is_parent" in fn)
+
+
+RULES = [rule_quote, rule_carry, rule_send, rule_sep, rule_shared_names, rule_listed_dir, rule_prefix_names]
